@@ -1,3 +1,301 @@
-From MV Require Import Base Num KdqTree.
-Theorem C08_placeholder : True. Proof. exact I. Qed.
-Print Assumptions C08_placeholder.
+(** C08 — the kdq-tree partitions space consistently and conserves counts.
+    Statements only (proofs: KdqTree_Proofs.v).  Strength of each theorem:
+      [structural]  every arithmetic instance [N], no hypothesis — hence also the bit-exact float model;
+      [order-law]   under the law [fltb m x = negb (fleb x m)] (no NaN): both sides of a split agree;
+      [laws]        under [OrdLaws N] and the two midpoint laws [MidLaws] (true of exact arithmetic,
+                    violated by IEEE doubles only when min + (max-min)/2 rounds up to max);
+      [exact]       on the rational instance [NumQ08].
+    The divergence (scipy.stats.entropy, i.e. log) is a parameter [kl] of the model. *)
+From MV Require Import Base Num KdqTree KdqTree_Proofs.
+From Coq Require Import QArith Reals.
+Local Open Scope Z_scope.
+
+Section C08.
+Context {N : Num}.
+Local Open Scope num_scope.
+Notation F := (F N).
+Notation tree := (tree N).
+Notation point := (point N).
+
+(** ------------------------------------------------------------------ build *)
+
+(** [structural] Whenever [build] does not run out of fuel its result is the tree specified by the
+    relation [built]: empty data gives no node; a node becomes a leaf holding [n] points exactly when
+    the stop rule fires; otherwise it splits axis [depth mod m] at [min + (max - min)/2] of the
+    points it holds and its children are the trees of the [<= mid] / [> mid] parts. *)
+Theorem C08_build_spec : forall trunc cub clb m fuel (data : list point) t,
+  build trunc cub clb m fuel data = (t, false) ->
+  built m cub (min_sizes trunc clb m data) data 0 t.
+Proof. intros trunc cub clb m fuel data t. apply build_sound. Qed.
+
+(** [structural] ... spelled out for an internal node at any depth (the children are [built] again, so
+    this applies to every node of the tree): why it was split, on which axis, and where. *)
+Theorem C08_node_spec : forall m cub mins (data : list point) depth ax mid c l r,
+  built m cub mins data depth (Node ax mid c l r) ->
+  (cub < len data)%Z /\ (cub < distinct (concat data))%Z /\
+  fleb (cell_size ax data) (nth (Z.to_nat ax) mins f0) = false /\
+  ax = (depth mod m)%Z /\
+  mid = col_min (column ax data) + (col_max (column ax data) - col_min (column ax data)) / fofZ 2 /\
+  c = [(0%Z, (len (upper ax mid data) + len (lower ax mid data))%Z)] /\
+  built m cub mins (lower ax mid data) (depth + 1) l /\
+  built m cub mins (upper ax mid data) (depth + 1) r.
+Proof.
+  intros m cub mins data depth ax mid c l r H.
+  destruct (built_split_reason m cub mins data depth _ H ax mid c l r eq_refl) as (A & B & C & D & E & G & I).
+  repeat split; auto. inversion H; subst. reflexivity.
+Qed.
+
+(** [structural] the split axis cycles with the depth *)
+Theorem C08_axis_cycles : forall trunc cub clb m fuel (data : list point) t,
+  build trunc cub clb m fuel data = (t, false) ->
+  all_nodes (fun depth ax _ _ _ _ => ax = (depth mod m)%Z) 0 t.
+Proof. intros. eapply built_axes. eapply build_sound. eassumption. Qed.
+
+(** [order-law] counts of the built tree: every node's count is the sum of its children's counts
+    (for every tree id), the root holds all points, the leaf counts add up to the number of points
+    built, and no node holding [count_ubound] points or fewer is split. *)
+Theorem C08_build_counts :
+  (forall a b : F, fltb a b = negb (fleb b a)) ->
+  forall trunc cub clb m fuel (data : list point) t,
+  m <> 0%Z -> build trunc cub clb m fuel data = (t, false) ->
+  (forall id, sum_inv id t) /\
+  cnt 0 t = len data /\
+  zsum (map odflt (leaf_counts 0 t)) = len data /\
+  all_nodes (fun _ _ _ c _ _ => (cub < getd 0 c)%Z) 0 t.
+Proof.
+  intros ord trunc cub clb m fuel data t Hm H. apply build_sound in H.
+  repeat split.
+  - eapply built_sum_inv_all; eauto.
+  - eapply built_cnt; eauto.
+  - rewrite <- leaf_total_leaf_counts. eapply built_leaf_total; eauto.
+  - eapply built_no_small_split; eauto.
+Qed.
+
+(** [laws] fuel adequacy and completeness: with at least as much fuel as points, [build_node] never
+    runs out of fuel, and the tree has no missing child (so its leaves partition the space). *)
+Theorem C08_fuel_adequate :
+  forall (OL : OrdLaws N) (ML : @MidLaws N) m cub mins,
+  (forall k, fleb f0 (nth k mins f0) = true) ->
+  forall fuel (data : list point) depth,
+  (len data <= Z.of_nat fuel)%Z ->
+  exists t, build_node m cub mins fuel data depth = (t, false) /\
+            complete t /\ (data <> [] -> m <> 0%Z -> t <> Nil).
+Proof.
+  intros OL ML m cub mins Hmins fuel data depth Hl.
+  pose proof (build_fuel_ok OL ML m cub mins Hmins fuel data depth Hl) as Hf.
+  destruct (build_node m cub mins fuel data depth) as [t b] eqn:E. simpl in Hf. subst b.
+  exists t. split; [reflexivity|].
+  apply (built_complete OL ML m cub mins Hmins data depth t). eapply build_sound; eauto.
+Qed.
+
+(** ------------------------------------------------------------------ fill *)
+
+(** [structural] fill changes neither the structure of the tree nor any count of another id, and
+    leaves a count for its id on every node. *)
+Theorem C08_fill_frame : forall (data : list point) (t : tree) id reset,
+  skeleton (fill data t id reset) = skeleton t /\
+  (forall id', id' <> id -> lookups_of id' (fill data t id reset) = lookups_of id' t) /\
+  has_id id (fill data t id reset).
+Proof.
+  intros. split; [apply fill_skeleton|]. split; [intros; apply fill_frame; assumption | apply fill_has_id].
+Qed.
+
+(** [structural] fill accumulates unless reset: with [reset] the counts (all nodes, pre-order; and
+    the leaves) are those of the new sample alone, without it they are added to the existing ones
+    (an id not yet present counts as 0). *)
+Theorem C08_fill_accumulates_unless_reset : forall (data : list point) (t : tree) id,
+  counts_of id (fill data t id true) = arrivals data t /\
+  counts_of id (fill data t id false) = zadd (counts_of id t) (arrivals data t) /\
+  map odflt (leaf_counts id (fill data t id true)) = leaf_arrivals data t /\
+  map odflt (leaf_counts id (fill data t id false))
+    = zadd (map odflt (leaf_counts id t)) (leaf_arrivals data t).
+Proof.
+  intros. split; [apply fill_counts_reset|]. split; [apply fill_counts_acc|].
+  split; [apply leaf_counts_fill_reset | apply leaf_counts_fill_acc].
+Qed.
+
+(** [order-law] fill assigns every point to the unique leaf whose cell contains it: the count of
+    leaf [i] is the number of points that [locate] (descent by [<= mid] / [> mid]) sends to leaf [i];
+    in a tree without missing children every point has such a leaf. *)
+Theorem C08_fill_unique_leaf :
+  (forall a b : F, fltb a b = negb (fleb b a)) ->
+  forall (t : tree) (data : list point) id,
+  (forall i, (i < nleaves t)%nat ->
+     nth i (map odflt (leaf_counts id (fill data t id true))) 0%Z = len (filter (at_leaf t i) data)) /\
+  (complete t -> t <> Nil -> forall p, exists i, locate p t = Some i /\ (i < nleaves t)%nat).
+Proof.
+  intros ord t data id. split.
+  - intros i Hi. rewrite leaf_counts_fill_reset. apply leaf_arrivals_locate; assumption.
+  - intros Hc Hn p. pose proof (locate_total ord p t Hc Hn) as H.
+    destruct (locate p t) as [i|] eqn:E; [|congruence]. exists i. split; [reflexivity|].
+    eapply locate_lt; eauto.
+Qed.
+
+(** [order-law] fill conserves counts in a tree without missing children: the root and the leaves
+    gain exactly the number of points filled (or are set to it under reset), and "node = sum of
+    children" is preserved. *)
+Theorem C08_fill_conserves :
+  (forall a b : F, fltb a b = negb (fleb b a)) ->
+  forall (t : tree) (data : list point) id reset,
+  complete t -> t <> Nil ->
+  cnt id (fill data t id reset) = ((if reset then 0 else cnt id t) + len data)%Z /\
+  zsum (map odflt (leaf_counts id (fill data t id reset)))
+    = ((if reset then 0 else zsum (map odflt (leaf_counts id t))) + len data)%Z /\
+  ((reset = true \/ sum_inv id t) -> sum_inv id (fill data t id reset)).
+Proof.
+  intros ord t data id reset Hc Hn. split; [apply cnt_fill; assumption|]. split.
+  - rewrite <- !leaf_total_leaf_counts. apply fill_leaf_total; assumption.
+  - apply fill_sum_inv; assumption.
+Qed.
+
+(** [structural] filling the build data under another id (fresh, or with reset) reproduces the
+    build counts exactly, at every node and at every leaf. *)
+Theorem C08_fill_build_agree : forall trunc cub clb m fuel (data : list point) t id reset,
+  build trunc cub clb m fuel data = (t, false) -> (reset = true \/ id <> 0%Z) ->
+  counts_of id (fill data t id reset) = counts_of 0 t /\
+  map odflt (leaf_counts id (fill data t id reset)) = map odflt (leaf_counts 0 t).
+Proof. intros. eapply fill_build_agree; eauto. eapply build_sound; eauto. Qed.
+
+(** [order-law] arbitrary histories of fill / reset(0) calls on a tree without missing children:
+    the structure never changes; for every id, every node's count stays the sum of its children's
+    counts, and root count and leaf total equal the ledger of points filled under that id. *)
+Theorem C08_history :
+  (forall a b : F, fltb a b = negb (fleb b a)) ->
+  forall (t : tree) (ops : list (op N)),
+  Forall op_ok ops -> good t ->
+  good (run_ops t ops) /\ skeleton (run_ops t ops) = skeleton t /\
+  (forall id, zsum (map odflt (leaf_counts id (run_ops t ops)))
+              = ledger id (zsum (map odflt (leaf_counts id t))) ops) /\
+  (forall id, cnt id (run_ops t ops) = ledger id (cnt id t) ops).
+Proof.
+  intros ord t ops Hf Hg. destruct (run_ops_good ord ops t Hf Hg) as (A & B & C & D).
+  repeat split; try apply A; auto. intros id. rewrite <- !leaf_total_leaf_counts. apply C.
+Qed.
+
+(** [laws] the tree [build] returns is a legitimate starting point of such a history *)
+Theorem C08_built_good :
+  forall (OL : OrdLaws N) (ML : @MidLaws N) trunc cub clb m fuel (data : list point) t,
+  (forall k, fleb f0 (nth k (min_sizes trunc clb m data) f0) = true) ->
+  data <> [] -> m <> 0%Z ->
+  build trunc cub clb m fuel data = (t, false) -> good t.
+Proof.
+  intros OL ML trunc cub clb m fuel data t Hmins Hd Hm H. apply build_sound in H.
+  destruct (built_complete OL ML m cub _ Hmins data 0 t H) as [Hc Hn].
+  repeat split; auto. eapply built_sum_inv_all; eauto. apply (ltb_leb N OL).
+Qed.
+
+(** ------------------------------------------------------------------ distributions, divergences *)
+
+(** [structural] kl_distance and the Kulldorff statistic are the oracle divergence applied to the
+    corrected distributions: of the leaf counts, resp. of the two cells (node, rest) per row. *)
+Theorem C08_divergence_arguments : forall (kl : list F -> list F -> F) (t : tree) id1 id2 c1 c2 rows,
+  (all_some (leaf_counts id1 t) = Some c1 -> all_some (leaf_counts id2 t) = Some c2 -> leaves t <> [] ->
+   kl_distance kl t id1 id2 = Some (kl (distn c1) (distn c2))) /\
+  kss kl rows =
+    map (fun r => kl (distn [r_count r; (zmaximum (map (@r_count N) rows) - r_count r)%Z])
+                     (distn [row_test r; (zmaximum (map (@row_test N) rows) - row_test r)%Z])) rows.
+Proof.
+  intros kl t id1 id2 c1 c2 rows. split.
+  - intros H1 H2 Hl. unfold kl_distance, kl_args. destruct (leaves t); [congruence|].
+    rewrite H1, H2. reflexivity.
+  - unfold kss, kss_args. rewrite map_map. reflexivity.
+Qed.
+
+(** [structural] equal leaf counts hand identical arguments to the divergence (which then is 0) *)
+Theorem C08_equal_counts_equal_arguments : forall (t : tree) id1 id2 a b,
+  leaf_counts id1 t = leaf_counts id2 t -> kl_args t id1 id2 = Some (a, b) -> a = b.
+Proof. exact kl_args_equal_counts. Qed.
+
+(** ------------------------------------------------------------------ to_plotly_dataframe *)
+
+(** [structural] the flattened array lists every node exactly once, in pre-order: as many rows as
+    nodes, row [k] is node [k], with its reference count and its count difference *)
+Theorem C08_flatten_once : forall id1 j (t : tree), has_id id1 t ->
+  length (flatten id1 (Some j) t) = size t /\
+  map (@r_idx N) (flatten id1 (Some j) t) = seq 0 (size t) /\
+  map (@r_count N) (flatten id1 (Some j) t) = counts_of id1 t /\
+  map (@r_diff N) (flatten id1 (Some j) t) = map Some (zsub (counts_of j t) (counts_of id1 t)).
+Proof.
+  intros id1 j t H. unfold flatten. split; [apply flatten_go_length; exact H|].
+  split; [apply flatten_go_idx; exact H|]. split; [apply flatten_go_counts; exact H | apply flatten_go_diff; exact H].
+Qed.
+
+(** [structural] ... with its parent and depth: row [k] describes the node at pre-order position [k];
+    the root row has no parent and depth 0; any other row names as parent an earlier row [j] that is
+    an internal node having node [k] as its left ([k = j+1]) or right ([k = j+1+size left]) child,
+    one level deeper, and records that node's split (axis, midpoint, side). *)
+Theorem C08_flatten_parent_depth : forall id1 id2 (t : tree), has_id id1 t ->
+  forall k, (k < size t)%nat ->
+  let rows := flatten id1 id2 t in
+  let row := nth k rows row0 in
+  r_idx row = k /\
+  (exists s, subtree_at t k = Some s /\ lookup id1 (node_counts s) = Some (r_count row)) /\
+  (k = O -> r_parent row = None /\ r_depth row = O /\ r_name row = None) /\
+  ((0 < k)%nat -> exists j ax mid c l r, (j < k)%nat /\ subtree_at t j = Some (Node ax mid c l r) /\
+        r_parent row = Some j /\ r_depth row = S (r_depth (nth j rows row0)) /\
+        ((k = S j /\ l <> Nil /\ r_name row = Some (ax, mid, true)) \/
+         (k = (S j + size l)%nat /\ r <> Nil /\ r_name row = Some (ax, mid, false)))).
+Proof.
+  intros id1 id2 t H k Hk. exact (flatten_go_spec id1 id2 t H 0%nat None 0%nat None k Hk).
+Qed.
+
+(** [structural] the premise [has_id] holds for "build" on a built tree and for any id once filled,
+    and is kept by later operations *)
+Theorem C08_flatten_applicable : forall trunc cub clb m fuel (data d' : list point) t id r ops,
+  build trunc cub clb m fuel data = (t, false) ->
+  has_id 0 (run_ops t ops) /\ has_id id (run_ops (fill d' (run_ops t ops) id r) ops).
+Proof.
+  intros. split.
+  - apply run_ops_has_id. eapply built_has_id. eapply build_sound. eauto.
+  - apply run_ops_has_id. apply fill_has_id.
+Qed.
+
+End C08.
+
+(** [exact] the corrected distribution (c + 1/2) / (total + n/2) is positive and sums to one *)
+Theorem C08_distn_sums_to_one : forall cs : list Z,
+  cs <> [] -> (forall c, In c cs -> (0 <= c)%Z) ->
+  (qsum (@distn NumQ08 cs) == 1)%Q /\ (forall x, In x (@distn NumQ08 cs) -> (0 < x)%Q).
+Proof. intros cs H1 H2. split; [apply distn_sums_to_one_Q; assumption | apply distn_pos_Q; assumption]. Qed.
+
+(** [exact, reals] Gibbs' inequality for the corrected distributions: their Kullback-Leibler
+    divergence  sum p_i ln (p_i / q_i)  is non-negative, and 0 for equal counts.  (The floating-point
+    value scipy returns is validated against a 60-digit evaluation of this expression by the harness.) *)
+Theorem C08_kl_nonneg : forall c1 c2 : list Z,
+  c1 <> [] -> length c1 = length c2 ->
+  (forall c, In c c1 -> (0 <= c)%Z) -> (forall c, In c c2 -> (0 <= c)%Z) ->
+  (0 <= kl_R (@distn NumR08 c1) (@distn NumR08 c2))%R /\
+  kl_R (@distn NumR08 c1) (@distn NumR08 c1) = 0%R.
+Proof. exact kl_distn_nonneg. Qed.
+
+(** the hypotheses of the [order-law] / [laws] theorems are satisfiable: rationals satisfy them *)
+Example C08_laws_satisfiable : OrdLaws NumQ08 /\ @MidLaws NumQ08.
+Proof. exact (conj NumQ08_ord NumQ08_mid). Qed.
+
+(** ... and a concrete run over the rationals: 5 points on a line, count_ubound 1 *)
+Example C08_example_run :
+  let data : list (point NumQ08) := [[0%Q]; [4%Q]; [2%Q]; [1%Q]; [3%Q]] in
+  let '(t, oof) := @build NumQ08 (fun x => x) 1 0%Q 1 5 data in
+  oof = false /\ map odflt (leaf_counts 0 t) = [1; 1; 1; 1; 1] /\ size t = 9%nat
+  /\ map odflt (leaf_counts 1 (fill data t 1 false)) = [1; 1; 1; 1; 1].
+Proof. vm_compute. repeat split. Qed.
+
+Print Assumptions C08_build_spec.
+Print Assumptions C08_node_spec.
+Print Assumptions C08_axis_cycles.
+Print Assumptions C08_build_counts.
+Print Assumptions C08_fuel_adequate.
+Print Assumptions C08_fill_frame.
+Print Assumptions C08_fill_accumulates_unless_reset.
+Print Assumptions C08_fill_unique_leaf.
+Print Assumptions C08_fill_conserves.
+Print Assumptions C08_fill_build_agree.
+Print Assumptions C08_history.
+Print Assumptions C08_built_good.
+Print Assumptions C08_divergence_arguments.
+Print Assumptions C08_equal_counts_equal_arguments.
+Print Assumptions C08_flatten_once.
+Print Assumptions C08_flatten_parent_depth.
+Print Assumptions C08_flatten_applicable.
+Print Assumptions C08_distn_sums_to_one.
+Print Assumptions C08_kl_nonneg.
